@@ -32,8 +32,4 @@ Theorem program_accesses_entitled :
   forall name p, In (name, p) scenarios ->
   forall c, reachable p c ->
   forall i t o, nth_error (threads c) i = Some t -> about_to_access t (heap c) o -> may_access p c i o.
-Proof.
-  intros name p Hin. apply own_sound.
-  pose proof own_check_program as H. unfold own_check_all in H. rewrite forallb_forall in H.
-  apply (H _ Hin).
-Qed.
+Proof. exact (own_entitled_all scenarios own_check_program). Qed.
